@@ -25,6 +25,28 @@ CHECKS = {
         'note': _COMMON_NOTE + 'Python sets are modelled as lists and compared as sets (membership bit-vectors over the enum order).',
         'technique': 'Coq proof (finite vm_compute facts lifted by forallb_forall + list lemmas) over translator-regenerated hierarchy and README tree; exhaustive model/impl correspondence',
     },
+    'C10': {
+        'text': 'Theorems in coq/props/C10.v (pitch level): for every clef class of the regenerated table, every letter, '
+                'alteration -3..3 and EVERY octave in Z the agnostic spelling equals the Humdrum spelling of the pitch on the '
+                'same staff position under G2 (closed formula), hence identity under G2, k diatonic steps -> k steps, bottom '
+                'line -> e, accidental copied; create_clef ignores any run of octave marks. Correspondence: the whole clef x '
+                'marks x letter x alteration x octave grid, malformed clefs and position strings, against the extracted model '
+                'and the Coq oracle. Document level (akern vs kern export, clef in force) is decided by correspondence and '
+                'monitors on generated documents, not by a theorem.',
+        'note': _COMMON_NOTE + 'int(str(n)) == n for the staff-position number is python builtin behaviour, checked in-kernel on the window -300..300 only (the theorems use the structured path).',
+        'technique': 'Coq proof (Z.div/mod arithmetic by lia + finite table facts by vm_compute) over translator-regenerated clef tables; exhaustive model/impl correspondence',
+    },
+    'C18': {
+        'text': 'Theorems in coq/props/C18.v hold for EVERY header outside {**kern, **root, **mens} (including unknown ones), '
+                'every non-empty cell text and ANY recogniser function: import never fails; a kern token whose category lies '
+                'under STRUCTURAL/SIGNATURES/EMPTY/BARLINES/IMAGE_ANNOTATIONS/COMMENTS is returned as it is (so barlines are '
+                'detected identically under every header); everything else becomes SimpleToken(text, own category). The '
+                'accepted sets, fallback categories, polarity of the any(...) test and the createImporter dispatch are '
+                'regenerated from the six importer files on every run. Correspondence: 12+ headers x every grammar alternative, '
+                'free text and random strings.',
+        'note': _COMMON_NOTE + 'The ANTLR recogniser is a universally quantified function in the theorems (Section variable), so nothing is assumed about it beyond determinism.',
+        'technique': 'Coq proof parametric in the recogniser over translator-regenerated importer shapes; model/impl correspondence on a grammar-covering corpus',
+    },
     'C16': {
         'text': 'Theorems in coq/props/C16.v: import (spell l a o) yields (l,a,o), export returns the spelling and leaves '
                 'the pitch unchanged, for 7 letters x alterations -3..3 x EVERY octave (nat repetition count, induction via '
